@@ -17,9 +17,9 @@ type CodeWriter struct {
 	pendings []rune
 }
 
-// WriteString writes a string to the buffer
-func (cw *CodeWriter) WriteString(s string) {
-	cw.flushPending()
+// emitString appends s to the buffer and keeps the source mapper's position in step.
+// Every byte that reaches the buffer goes through emitString or emitRune.
+func (cw *CodeWriter) emitString(s string) {
 	cw.Builder.WriteString(s)
 	if cw.Mapper == nil {
 		return
@@ -27,9 +27,8 @@ func (cw *CodeWriter) WriteString(s string) {
 	cw.Mapper.AdvanceString(s)
 }
 
-// WriteRune writes a rune to the buffer
-func (cw *CodeWriter) WriteRune(r rune) {
-	cw.flushPending()
+// emitRune appends r to the buffer and keeps the source mapper's position in step.
+func (cw *CodeWriter) emitRune(r rune) {
 	cw.Builder.WriteRune(r)
 	if cw.Mapper == nil {
 		return
@@ -39,6 +38,18 @@ func (cw *CodeWriter) WriteRune(r rune) {
 	} else {
 		cw.Mapper.AdvanceColumn(1)
 	}
+}
+
+// WriteString writes a string to the buffer
+func (cw *CodeWriter) WriteString(s string) {
+	cw.flushPending()
+	cw.emitString(s)
+}
+
+// WriteRune writes a rune to the buffer
+func (cw *CodeWriter) WriteRune(r rune) {
+	cw.flushPending()
+	cw.emitRune(r)
 }
 
 // WriteSemi writes a semicolon if WriteSemicolons is true.
